@@ -84,6 +84,9 @@ func (x *Exec) acquire(st *State, pos token.Pos, recv *Val) {
 	x.assumeInv(st, recv)
 	st.held = 1
 	st.secStart = st.Snapshot()
+	if x.firstSec == nil && x.vc.quiet == 0 {
+		x.firstSec = st.secStart
+	}
 	if x.frame != nil {
 		for fr := x.frame; fr != nil; fr = fr.parent {
 			if fr.recv == nil {
